@@ -610,6 +610,8 @@ def conformWith (envB filesB devsB input traceB : Bytes)
             let tail := match rest with
               | [] => ""
               | x :: _ => s!" EXTRA {rest.length} next={Driver.callStr x.1}"
+            -- a `readdir` loop of the model ran out of fuel: from there on the model's run is a truncation of mdsort's
+            if st.fuelOut then s!"FUELOUT exit={status} calls={w.trace.length}{tail}" else
             s!"OK exit={status} reject={st.reject}{tail} FS {fsDump w} LOG {String.intercalate "," (st.log.map Driver.hex)}"
           | .diverge pos exp got =>
             s!"DIVERGE pos={pos} expected=[{Driver.callStr exp}] got=[{match got with | some c => Driver.callStr c | none => "end-of-trace"}]"
